@@ -1128,6 +1128,48 @@ func TestEnumOneForms(t *testing.T) {
 	suite.Extra("one_form_matrix_exhaustive_over", fmt.Sprintf("%d fan-outs x %d last fragments x %d trees x 8 operations x {simple, gen, user collections}", len(fans), len(lasts), len(datas)))
 }
 
+// TestEnumSelfReadingFilters: a filter as last fragment that reads the very collection the operation
+// changes ($[-1], $[0], $.k[1] ... inside the filter): what is selected is decided on the data as it
+// was before the call, for every element, whatever the operation does to the collection while it
+// goes through it - on simple, gen and user-collection data, at the root and one level down.
+func TestEnumSelfReadingFilters(t *testing.T) {
+	at := &jpx.Eq{Op: "get", P: jpx.Path{{K: "at"}}}
+	rootAt := func(frags ...jpx.Frag) *jpx.Eq {
+		return &jpx.Eq{Op: "get", P: append(jpx.Path{{K: "root"}}, frags...)}
+	}
+	n := 0
+	for _, nested := range []bool{false, true} {
+		var pre []jpx.Frag
+		head := jpx.Path{{K: "root"}}
+		if nested {
+			pre = []jpx.Frag{{K: "child", Key: "k"}}
+			head = jpx.Path{{K: "root"}, {K: "child", Key: "k"}}
+		}
+		sel := func(f jpx.Frag) *jpx.Eq { return rootAt(append(append([]jpx.Frag{}, pre...), f)...) }
+		filters := []*jpx.Eq{
+			{Op: "eq", L: at, R: sel(jpx.Frag{K: "nth", N: -1})}, {Op: "eq", L: at, R: sel(jpx.Frag{K: "nth", N: 0})}, {Op: "neq", L: at, R: sel(jpx.Frag{K: "nth", N: 1})},
+			{Op: "lt", L: at, R: sel(jpx.Frag{K: "nth", N: -1})}, {Op: "gte", L: at, R: sel(jpx.Frag{K: "nth", N: 2})}, {Op: "eq", L: at, R: sel(jpx.Frag{K: "wild"})},
+		}
+		for _, arr := range [][]any{{int64(1), int64(2), int64(1), int64(2)}, {int64(3), int64(1), int64(2)}, {int64(2), int64(2)}, {int64(5)}, {}} {
+			var data any = arr
+			if nested {
+				data = map[string]any{"k": arr, "other": int64(2)}
+			}
+			enc := wx.Enc(data)
+			for _, f := range filters {
+				for _, op := range []string{"remove", "removeone", "modify", "modifyone", "del", "delone", "set", "setone"} {
+					for _, variant := range []int{0, 1, 2} {
+						p := append(append(jpx.Path{}, head...), jpx.Frag{K: "filter", F: f})
+						vrt.Eval(suite, "mutate", Case{Op: op, Path: p, Data: enc, Val: wx.Enc("NEW"), Mod: "marker", Gen: variant == 1, User: variant == 2}, Run)
+						n++
+					}
+				}
+			}
+		}
+	}
+	suite.AddExtra("self_reading_filter_cases", int64(n))
+}
+
 func TestPropRandom(t *testing.T) {
 	vrt.Rapid(t, suite, "mutate", vrt.Scale(30000, 200000), drawCase, Run)
 }
